@@ -29,7 +29,7 @@ CHECK = Check(
         "sinh/cosh), exp > 0, and monotonicity / range lemmas of Real.rpow",
         "conditioning filter of the correspondence generators (harness models_rr.go): a drawn case is compared at 1e-9 "
         "only if the implementation itself moves by <= 1e-10 relative under a 1e-13 relative perturbation of its "
-        "inputs; numerically chaotic corners (GR4J: x2 < -x3/2 with x3 of a few mm; Sacramento: supplemental store "
+        "inputs; numerically chaotic corners (GR4J: strongly negative x2 with x3 of a few mm; Sacramento: supplemental store "
         "of 5-7 mm in very wet spells) are run oracle-only (family KORACLE)",
         "oracle for the failing-input search (harness oracle_C10.go): finiteness, non-negativity, store bounds, "
         "components, prefix and end-of-run budgets on the implementation's outputs, tolerance 1e-9 x scale",
